@@ -97,9 +97,9 @@ static void run_history(void *mem, const Pub &p, const Sec &s) {
     case T_KMACA: { ascon_kmaca_state_t *st = (ascon_kmaca_state_t *)mem; ascon_kmaca_init(st, k.p, k.n, a.p, a.n, p.outlen); for (uint64_t ch : p.chunks) { Buf b(piece(s.msg, pos, ch)); ascon_kmaca_absorb(st, b.p, ch); pos += ch; } if (p.flags & 2) { Buf o(p.outlen); ascon_kmaca_squeeze(st, o.nn(), p.outlen); } ascon_kmaca_free(st); break; }
     case T_KDF: { ascon_kdf_state_t *st = (ascon_kdf_state_t *)mem; ascon_kdf_init(st, k.p, k.n, a.p, a.n, p.outlen); if (p.flags & 2) { Buf o(p.outlen); ascon_kdf_squeeze(st, o.nn(), p.outlen); } ascon_kdf_free(st); break; }
     case T_KDFA: { ascon_kdfa_state_t *st = (ascon_kdfa_state_t *)mem; ascon_kdfa_init(st, k.p, k.n, a.p, a.n, p.outlen); if (p.flags & 2) { Buf o(p.outlen); ascon_kdfa_squeeze(st, o.nn(), p.outlen); } ascon_kdfa_free(st); break; }
-    case T_HKDF: { ascon_hkdf_state_t *st = (ascon_hkdf_state_t *)mem; ascon_hkdf_extract(st, k.p, k.n, m.p, m.n); if (p.flags & 2) { Buf o(p.outlen); ascon_hkdf_expand(st, a.p, a.n, o.nn(), p.outlen); } ascon_hkdf_free(st); break; }
-    case T_HKDFA: { ascon_hkdfa_state_t *st = (ascon_hkdfa_state_t *)mem; ascon_hkdfa_extract(st, k.p, k.n, m.p, m.n); if (p.flags & 2) { Buf o(p.outlen); ascon_hkdfa_expand(st, a.p, a.n, o.nn(), p.outlen); } ascon_hkdfa_free(st); break; }
-    case T_RANDOM: { ascon_random_state_t *st = (ascon_random_state_t *)mem; ascon_random_init(st); if (p.flags & 2) { Buf o(p.outlen); ascon_random_fetch(st, o.nn(), p.outlen); } ascon_random_feed(st, m.p, m.n); if (p.flags & 4) ascon_random_reseed(st); ascon_random_free(st); break; }
+    case T_HKDF: { ascon_hkdf_state_t *st = (ascon_hkdf_state_t *)mem; ascon_hkdf_extract(st, k.p, k.n, m.p, m.n); if (p.flags & 2) { Buf o(p.outlen); ascon_hkdf_expand(st, a.p, a.n, o.nn(), p.outlen); } if (p.flags & 4) { /* use up the whole 255-block output stream (the block counter wraps), optionally ask for more */ size_t used = (p.flags & 2) ? p.outlen : 0; size_t rest = used < 8160 ? 8160 - used : 0; if (p.flags & 8) rest -= rest ? 1 + p.outlen % 31 % rest : 0; Buf big(rest); ascon_hkdf_expand(st, a.p, a.n, big.nn(), rest); if (p.flags & 16) { Buf more(40); ascon_hkdf_expand(st, a.p, a.n, more.p, 40); } } ascon_hkdf_free(st); break; }
+    case T_HKDFA: { ascon_hkdfa_state_t *st = (ascon_hkdfa_state_t *)mem; ascon_hkdfa_extract(st, k.p, k.n, m.p, m.n); if (p.flags & 2) { Buf o(p.outlen); ascon_hkdfa_expand(st, a.p, a.n, o.nn(), p.outlen); } if (p.flags & 4) { /* use up the whole 255-block output stream (the block counter wraps), optionally ask for more */ size_t used = (p.flags & 2) ? p.outlen : 0; size_t rest = used < 8160 ? 8160 - used : 0; if (p.flags & 8) rest -= rest ? 1 + p.outlen % 31 % rest : 0; Buf big(rest); ascon_hkdfa_expand(st, a.p, a.n, big.nn(), rest); if (p.flags & 16) { Buf more(40); ascon_hkdfa_expand(st, a.p, a.n, more.p, 40); } } ascon_hkdfa_free(st); break; }
+    case T_RANDOM: { ascon_random_state_t *st = (ascon_random_state_t *)mem; ascon_random_init(st); if (p.flags & 2) { Buf o(p.outlen); ascon_random_fetch(st, o.nn(), p.outlen); } ascon_random_feed(st, m.p, m.n); if (p.flags & 4) ascon_random_reseed(st); if ((p.flags & 24) == 24) { Buf big(16384 + p.outlen); ascon_random_fetch(st, big.p, big.n); if (p.flags & 32) { Buf o(8); ascon_random_fetch(st, o.p, 8); } } ascon_random_free(st); break; }
     case T_ISAP128A: { ascon128a_isap_aead_key_t *pk = (ascon128a_isap_aead_key_t *)mem; ascon128a_isap_aead_init(pk, k.p); if (p.flags & 2) { Buf n(p.nonce), c(s.msg.size() + 16); size_t cl; ascon128a_isap_aead_encrypt(c.p, &cl, m.p, m.n, a.p, a.n, n.p, pk); } ascon128a_isap_aead_free(pk); break; }
     case T_ISAP128: { ascon128_isap_aead_key_t *pk = (ascon128_isap_aead_key_t *)mem; ascon128_isap_aead_init(pk, k.p); if (p.flags & 2) { Buf n(p.nonce), c(s.msg.size() + 16); size_t cl; ascon128_isap_aead_encrypt(c.p, &cl, m.p, m.n, a.p, a.n, n.p, pk); } ascon128_isap_aead_free(pk); break; }
     case T_ISAP80PQ: { ascon80pq_isap_aead_key_t *pk = (ascon80pq_isap_aead_key_t *)mem; ascon80pq_isap_aead_init(pk, k.p); if (p.flags & 2) { Buf n(p.nonce), c(s.msg.size() + 16); size_t cl; ascon80pq_isap_aead_encrypt(c.p, &cl, m.p, m.n, a.p, a.n, n.p, pk); } ascon80pq_isap_aead_free(pk); break; }
@@ -148,6 +148,8 @@ static rc::Gen<KV> gen_wipe() {
 }
 static bool classify_wipe(const KV &c, std::vector<std::string> &tags) {
     int type = (int)tonum(c, "type");
+    if ((type == T_HKDF || type == T_HKDFA) && (tonum(c, "flags") & 4)) tags.push_back((tonum(c, "flags") & 8) ? "hkdf-stream-nearly-used-up" : "hkdf-stream-used-up");
+    if (type == T_RANDOM && (tonum(c, "flags") & 24) == 24) tags.push_back("prng-past-reseed-limit");
     tags.push_back(std::string("type=") + TNAME[type]);
     if (type >= T_CPP_AEAD0 && type <= T_CPP_ISAP2) tags.push_back(tonum(c, "end") ? "end=destructor" : "end=clear()");
     return true;   // every history contains at least one keyed / absorbing operation
